@@ -1457,3 +1457,80 @@ Qed.
 Theorem reachable_inv : forall sched, exists m,
   mon_run m_init (run sched) = MOk m /\ Inv (fst (run_from init sched)) m.
 Proof. intro sched. exact (run_from_inv sched init m_init inv_init). Qed.
+
+(** ---- corollaries stated on reachable states ---- *)
+Definition reach (sched : list sev) : state := fst (run_from init sched).
+
+Lemma reach_blocked_by_holder : forall sched t, blocked (reach sched) t = true ->
+  exists h, h <> t /\ lock (reach sched) = Some h /\ holding (get_pc (reach sched) h) = true /\
+            waiting (get_pc (reach sched) t) = true.
+Proof.
+  intros sched t Hb. destruct (reachable_inv sched) as [m [_ HI]]. fold (reach sched) in HI.
+  unfold blocked in Hb. apply andb_prop in Hb. destruct Hb as [Hw Hl].
+  destruct (lock (reach sched)) as [h|] eqn:E; [|discriminate]. exists h.
+  assert (Hh : holding (get_pc (reach sched) h) = true) by (apply (i_lock _ _ HI); exact E).
+  split; [|tauto]. intros ->. destruct (get_pc (reach sched) t); cbn in *; congruence.
+Qed.
+
+Lemma reach_delivery : forall sched, exists m,
+  mon_run m_init (run sched) = MOk m /\
+  length (m_pubs m) = npub (reach sched) /\
+  (forall c mg q, queued (reach sched) c mg q ->
+     nth_error (m_pubs m) q = Some (m_topic mg, m_data mg) /\
+     In (mk (m_id mg) (m_topic mg) c) (alloc (reach sched)) /\
+     (get_lastq (reach sched) (m_id mg) <= q)%nat) /\
+  (forall c ch, lookup (chans (reach sched)) c = Some ch -> qsorted (c_q ch)).
+Proof.
+  intro sched. destruct (reachable_inv sched) as [m [H HI]]. fold (reach sched) in HI. exists m.
+  split; [exact H|]. split; [exact (i_pubs_len _ _ HI)|]. split; [|exact (i_qsorted _ _ HI)].
+  intros c mg q Hq. split; [exact (i_pubs _ _ HI _ _ _ Hq)|]. destruct (i_q _ _ HI _ _ _ Hq) as [_ H2]. exact H2.
+Qed.
+
+Lemma reach_unique_ids : forall sched,
+  NoDup (ids_of (alloc (reach sched))) /\ NoDup (ids_of (entries (reach sched))) /\
+  incl (entries (reach sched)) (alloc (reach sched)) /\
+  (forall e, In e (alloc (reach sched)) -> 0 <= e_id e < next_id (reach sched)).
+Proof.
+  intro sched. destruct (reachable_inv sched) as [m [_ HI]]. fold (reach sched) in HI.
+  split; [exact (i_alloc_nd _ _ HI)|]. split; [exact (i_ent_nd _ _ HI)|]. split; [exact (i_ent_alloc _ _ HI)|].
+  intros e He. split; [|exact (i_alloc_lt _ _ HI e He)].
+  (* ids are allocated from 0 upwards *)
+  revert e He. unfold reach. clear HI m.
+  assert (G : forall sc s, (forall e, In e (alloc s) -> 0 <= e_id e) -> 0 <= next_id s ->
+              (forall e, In e (alloc (fst (run_from s sc))) -> 0 <= e_id e) /\ 0 <= next_id (fst (run_from s sc))).
+  { induction sc as [|ev r IH]; intros s Ha Hn; cbn [run_from]; [cbn; tauto|].
+    destruct (step s ev) as [s1 o1] eqn:Es. specialize (IH s1).
+    assert (Hs1 : (forall e, In e (alloc s1) -> 0 <= e_id e) /\ 0 <= next_id s1).
+    { destruct ev as [t o|t]; cbn [step] in Es.
+      - unfold start in Es. destruct (get_pc s t); try (inversion Es; subst; tauto).
+        destruct o; try (inversion Es; subst; cbn; tauto).
+        + destruct (lookup (chans s) c); inversion Es; subst; cbn; tauto.
+        + inversion Es; subst; cbn. split; [|lia]. intros e He. apply in_app_or in He. destruct He as [He|[<-|[]]]; [auto|cbn; lia].
+        + destruct (lookup (chans s) c) as [ch|]; [destruct (c_q ch) as [|[mg q] rr]|]; inversion Es; subst; cbn; tauto.
+        + destruct (lookup (chans s) c); inversion Es; subst; cbn; tauto.
+      - unfold step_task in Es. destruct (get_pc s t) as [ |id tp c|id tp c|id|id| | |tp d|tp d rest pr|pr|pr]; cbn [acquired] in Es;
+          try (destruct (lock s); inversion Es; subst; cbn; tauto); try (inversion Es; subst; cbn; tauto).
+        destruct rest as [|e0 rest]; [destruct pr; inversion Es; subst; cbn; tauto|].
+        destruct (e_topic e0 =? tp); [destruct (try_send _ _ _) as [[ | | ] cs]|]; inversion Es; subst; cbn; tauto. }
+    destruct Hs1 as [H1 H2]. destruct (IH H1 H2) as [H3 H4]. destruct (run_from s1 r). cbn [fst] in *. tauto. }
+  destruct (G sched init) as [H _]; [intros e []|cbn; lia|]. exact H.
+Qed.
+
+Lemma reach_dead : forall sched, exists m,
+  mon_run m_init (run sched) = MOk m /\
+  forall id n, lookup (m_dead m) id = Some n -> dead_ok (reach sched) id n.
+Proof.
+  intro sched. destruct (reachable_inv sched) as [m [H HI]]. fold (reach sched) in HI. exists m.
+  split; [exact H|exact (i_dead _ _ HI)].
+Qed.
+
+Lemma reach_count : forall sched, exists m,
+  mon_run m_init (run sched) = MOk m /\
+  blen (entries (reach sched)) + blen (m_dead m) <= blen (alloc (reach sched)).
+Proof.
+  intro sched. destruct (reachable_inv sched) as [m [H HI]]. fold (reach sched) in HI. exists m.
+  split; [exact H|exact (count_bound _ _ HI)].
+Qed.
+
+Lemma run_calls_ok : forall l, ok_C20 (run_calls init l) = true.
+Proof. intro l. rewrite run_calls_is_run. apply run_ok. Qed.
